@@ -190,7 +190,7 @@ func (p *Parser) validateRecoverRequest(req *model.RecoverRequest) error {
 
 	// the reader of the batch files applies this limit to every operation reference: an operation with a longer suffix
 	// would make the whole batch it is written to unreadable
-	if len(req.DidSuffix) > int(p.MaxOperationHashLength) {
+	if uint(len(req.DidSuffix)) > p.MaxOperationHashLength {
 		return fmt.Errorf("did suffix length[%d] exceeds maximum hash length[%d]", len(req.DidSuffix), p.MaxOperationHashLength)
 	}
 
@@ -265,7 +265,7 @@ func (p *Parser) validateNonce(nonce string) error {
 		return fmt.Errorf("failed to decode nonce '%s': %s", nonce, err.Error())
 	}
 
-	if len(nonceBytes) != int(p.NonceSize) {
+	if uint64(len(nonceBytes)) != p.NonceSize {
 		return fmt.Errorf("nonce size '%d' doesn't match configured nonce size '%d'", len(nonceBytes), p.NonceSize)
 	}
 
